@@ -108,3 +108,157 @@ def replay_unloadable(obligation=None, model=None, meta=None):
     return {'confirmed': False, 'tried': n}
 
 replay_unloadable.real_system = True       # drives the real program on stock inputs: a crash inside repository code is a confirmed failure
+
+
+def run_mp_proc(pid):
+    """andes.main._run_mp_proc: every case is started as a process running ``run_case(file, **kwargs)`` with ALL the keyword
+    arguments the caller gave (among them ``config_option``, ``config``, ``config_path``: what was asked for is what each case runs with)."""
+    K = TStr.sort
+
+    def process(ex, st, args, kw, node):
+        same = isinstance(kw.get('kwargs'), Ref) and isinstance(st.env.get('kwargs'), Ref) and kw['kwargs'].loc == st.env['kwargs'].loc
+        tgt = kw.get('target')
+        a = kw.get('args')
+        ok_args = isinstance(a, tuple) and len(a) == 1 and a[0] is st.env.get('file')
+        ex.oblige(st, 'pre@call:Process:target=run_case,args=(this case,),kwargs=every-keyword-of-the-caller',
+                  z3.BoolVal(bool(same and ok_args and isinstance(tgt, Func) and tgt.name == 'run_case')), {})
+        return TOpaque('Job').make(st, 'job')
+    nop = lambda ex, st, a, k, n: None     # noqa
+    c = Contract(FMN, '_run_mp_proc', pid=pid, params={'cases': TSeq(elem=K), 'ncpu': TInt()}, schema={},
+                 requires=[('ncpu-positive', lambda v: to_z3(v.local('ncpu')) > 0)],
+                 calls={'Process': process, 'print': nop, 'logger.debug': nop, 'sleep': nop, '<value>.start': nop, '<value>.join': nop,
+                        '<value>.append': nop},
+                 globals_={'Process': Func('Process'), 'run_case': Func('run_case'), 'sleep': Func('sleep'), 'print': Func('print')},
+                 loops={0: Loop(inv=[], frame=['$idx', '$file', '$job', '$jobs', '$start_msg']), 1: Loop(inv=[], frame=['$job'])},
+                 ensures=[('returns-True', lambda old, new, res: z3.BoolVal(res is True))], modifies=[])
+    return c
+
+
+def replay_mp_kwargs(obligation=None, model=None, meta=None):
+    """native: the real _run_mp_proc and _run_mp_pool with the process / pool classes replaced by recorders -- every keyword given
+    to the front end (config_option, config, config_path, routine, tf, an unknown one) reaches run_case for every case"""
+    import andes.main as M
+    given = dict(config_option=['PFlow.max_iter=40'], config={'TDS': {'tf': 3}}, config_path='/nonexistent/andes.rc', routine='pflow', tf=2.0,
+                 no_output=True, default_config=True, some_future_keyword=1)
+    seen = []
+
+    class FakeProcess:
+        def __init__(self, name=None, target=None, args=(), kwargs=None):
+            seen.append(('proc', target, args, dict(kwargs or {})))
+
+        def start(self):
+            pass
+
+        def join(self):
+            pass
+
+    class FakePool:
+        def __init__(self, n):
+            pass
+
+        def map(self, f, cases):
+            for c in cases:
+                seen.append(('pool', getattr(f, 'func', None), (c,), dict(getattr(f, 'keywords', {}) or {})))
+            return []
+    saved = M.Process, M.Pool, M.sleep
+    M.Process, M.Pool, M.sleep = FakeProcess, FakePool, (lambda s: None)
+    import contextlib
+    import io
+    try:
+        with contextlib.redirect_stdout(io.StringIO()):
+            M._run_mp_proc(['a.m', 'b.m', 'c.m'], ncpu=2, **given)
+            M._run_mp_pool(['a.m', 'b.m'], ncpu=2, verbose=30, **given)
+    finally:
+        M.Process, M.Pool, M.sleep = saved
+    n = 0
+    for kind, target, args, kws in seen:
+        n += 1
+        missing = sorted(k for k, v in given.items() if k not in kws or kws[k] != v)
+        if target is not M.run_case or missing:
+            return {'confirmed': True, 'inputs': {'front end': '_run_mp_%s' % kind, 'case': args, 'keywords given': sorted(given)},
+                    'observed': 'run_case is started without %r (target %r)' % (missing, getattr(target, '__name__', target)),
+                    'native_cmd': 'andes.main._run_mp_proc / _run_mp_pool with Process / Pool replaced by recorders'}
+    if n != 5:
+        return {'confirmed': True, 'inputs': {'cases': 5}, 'observed': '%d jobs started for 3 + 2 cases' % n, 'native_cmd': 'andes.main._run_mp_proc / _run_mp_pool'}
+    return {'confirmed': False, 'tried': n}
+
+
+FIO = 'andes/io/__init__.py'
+
+
+def io_parse(pid):
+    """andes.io.parse: True exactly when the format is known (given or guessed), the base case was read AND -- if an additional file is
+    named -- that file was read too; the additional file is read with the parser of ITS format, after the base case."""
+    from pyvc.symval import Bo, Opaque
+    GUESS, BASE, ADD = fresh('guess_ok', Bo), fresh('base_read_ok', Bo), fresh('addfile_read_ok', Bo)
+
+    def import_module(ex, st, args, kw, node):
+        return Mark('parser', (args[0],))
+
+    def read(ex, st, args, kw, node):
+        p = args[0]
+        fmt = st.load('system.files.input_format')
+        ok = isinstance(p, Mark) and p.kind == 'parser' and args[1] is st.env['system'] and args[2] is st.load('system.files.case')
+        ex.oblige(st, 'pre@call:read:base-case-read-with-a-parser-on-this-system-and-the-case-file', z3.BoolVal(bool(ok)), {})
+        st.ghost['calls'] = st.ghost['calls'] + ['read']
+        return BASE
+
+    def read_add(ex, st, args, kw, node):
+        p = args[0]
+        ok = isinstance(p, Mark) and p.kind == 'parser' and args[1] is st.env['system'] and args[2] is st.load('system.files.addfile')
+        ex.oblige(st, 'pre@call:read_add:additional-file-read-on-this-system,after-the-base-case', z3.BoolVal(bool(ok and st.ghost['calls'] == ['read'])), {})
+        st.ghost['calls'] = st.ghost['calls'] + ['read_add']
+        return ADD
+    nop = lambda ex, st, a, k, n: None     # noqa
+
+    def post(old, new, res):
+        from pyvc.symex import zb
+        have_fmt = zb(old.ex.truth(old.get('system.files.input_format'), old.st))
+        have_add = zb(old.ex.truth(old.get('system.files.addfile'), old.st))
+        want = z3.And(z3.Or(have_fmt, GUESS), BASE, z3.Or(z3.Not(have_add), ADD))
+        return to_b(res) == want
+
+    def to_b(r):
+        return r if z3.is_expr(r) else z3.BoolVal(bool(r))
+    c = Contract(FIO, 'parse', pid=pid, params={'system': TObj()},
+                 schema={'system.files.input_format': TStr(), 'system.files.add_format': TStr(), 'system.files.case': TStr(),
+                         'system.files.addfile': TStr(), 'system.files.fullname': TStr()},
+                 ghost_init={'calls': []},
+                 calls={'elapsed': lambda ex, st, a, k, n: (Opaque(fresh('t', R)), 's'), 'guess': lambda ex, st, a, k, n: GUESS,
+                        'importlib.import_module': import_module, '<value>.read': read, '<value>.read_add': read_add,
+                        'logger.info': nop, 'logger.error': nop, 'logger.debug': nop, 'logger.warning': nop},
+                 globals_={'elapsed': Func('elapsed'), 'guess': Func('guess'), '__name__': 'andes.io', 'importlib': __import__('pyvc.symval', fromlist=['Module']).Module('importlib')},
+                 ensures=[('True-iff-format-known,base-case-read,and-the-additional-file(if-named)-read', post)], modifies=[])
+    return c
+
+
+def replay_io_parse(obligation=None, model=None, meta=None):
+    """native: andes.io.parse on a stub system with stub parsers: every combination of (base case read, additional file named,
+    additional file read) -- the status returned is the conjunction; and the real loader on kundur.raw with an inconsistent dyr"""
+    import itertools
+    import sys
+    import types
+    import logging
+    import andes.io as IO
+    from contracts.packutil import Stub
+    logging.getLogger('andes').setLevel(logging.CRITICAL)
+    n = 0
+    for base_ok, have_add, add_ok in itertools.product((True, False), repeat=3):
+        calls = []
+        mod = types.ModuleType('andes.io.verifstub')
+        mod.read = lambda system, file, calls=calls, r=base_ok: (calls.append(('read', file)), r)[1]
+        mod.read_add = lambda system, file, calls=calls, r=add_ok: (calls.append(('read_add', file)), r)[1]
+        sys.modules['andes.io.verifstub'] = mod
+        try:
+            system = Stub(files=Stub(input_format='verifstub', add_format='verifstub', case='base.x', fullname='base.x', addfile='add.y' if have_add else None))
+            n += 1
+            got = IO.parse(system)
+        finally:
+            sys.modules.pop('andes.io.verifstub', None)
+        want = base_ok and (not have_add or add_ok)
+        want_calls = [('read', 'base.x')] + ([('read_add', 'add.y')] if (base_ok and have_add) else [])
+        if bool(got) != want or calls != want_calls:
+            return {'confirmed': True, 'inputs': {'base case read': base_ok, 'additional file named': have_add, 'additional file read': add_ok},
+                    'observed': 'parse returned %r (calls %r); the conjunction is %r (calls %r)' % (got, calls, want, want_calls),
+                    'native_cmd': 'andes.io.parse(stub system) with a stub parser module'}
+    return {'confirmed': False, 'tried': n}
